@@ -20,6 +20,10 @@ func elemOfValue(v ssa.Value, isList func(ssa.Value) bool) bool {
 }
 
 func checkC04(p *Prog, r *Report) {
+	r.rule("C04.get-api-only: where Wrapper.getField (or its search helper) matches the key against a json tag it also tests the field's api tag, so Get only reads fields that belong to the resource")
+	checkGetFieldAPIOnly(p, r, "C04")
+	r.rule("C04.check-complete: SoftResource.check, which Get runs before a soft resource's values are read, cannot return before its loops that zero-fill missing and drop stale fields (shared with C17)")
+	checkSoftCheckComplete(p, r, "C04")
 	r.rule("R10 selection guards (must-pass-through over the CFG, && / || conditions resolved per predecessor): in MarshalResource an attribute is stored only behind fields[i] == attr.Name, a relationship object only behind fields[i] == rel.FromName, and a data member only behind relData[<this resource's type name>][j] == rel.FromName; no other store into those maps exists")
 	r.rule("C04.complete: the attribute and relationship loops range over all of Attrs() / Rels() and the inner search loops are only left early right after a match (nothing selected is skipped)")
 	r.rule("C04.search-complete: every loop of MarshalResource over the field selection, the relationship-data list, the attribute map or the relationship map is order-insensitive: it is left early only right after an equality match and writes only entries keyed by the current element or objects made in the iteration (so a name is found wherever it stands in the list)")
